@@ -478,6 +478,24 @@ func templates(p *prefix, thorough bool) []*tmpl {
 		t.inSeq, t.always = 5, true // X1 X2 Y1 Y2 Y3 in this order, the Z blocks anywhere
 		ts = append(ts, t)
 	}
+	// T10: the best known header is a block that turns out invalid when connected, its valid sibling then
+	// becomes the tip, the chain goes on, and a third branch makes the node disconnect all of it. What the
+	// node believed about the best header at each commit (LocalAcceptBlock passes it as LastKnownHeight)
+	// differs between the header schedules.
+	{
+		x1 := sp(ops(op([32]byte{8, 8, 8}, 0)), outs(o1(1)))
+		a1 := sp(ops(op(p.N, 0)), outs(o1(25e8)))
+		a2 := sp(ops(op(a1.TxID(), 0)), outs(o1(24e8)))
+		b1 := sp(ops(op(p.N, 0)), outs(o1(20e8), o1(5e8)))
+		ts = append(ts, p.mk("best-header-refused-then-sibling-extended-then-reorganised", []bspec{
+			{name: "X1", parent: "P", tag: 9, txs: []*reftx.Tx{x1}},
+			{name: "A1", parent: "P", tag: 1, txs: []*reftx.Tx{a1}},
+			{name: "A2", parent: "A1", tag: 1, txs: []*reftx.Tx{a2}, fees: 1e8},
+			{name: "B1", parent: "P", tag: 2, txs: []*reftx.Tx{b1}},
+			{name: "B2", parent: "B1", tag: 2},
+			{name: "B3", parent: "B2", tag: 2},
+		}))
+	}
 	// T4: equal-work ties at depth 2 and a late tie-breaker.
 	{
 		a1 := sp(ops(op(p.N, 1)), outs(o1(5e8), o1(20e8)))
@@ -537,6 +555,7 @@ func runHistory(p *prefix, t *tmpl, events []int, states map[string]bool, mu *sy
 				os.Stderr.Write(debug.Stack())
 			}
 			msg = hexRun.ReplaceAllString(msg, "<hash>") // block hashes depend on mined nonces: keep keys stable
+			msg = scratchDir.ReplaceAllString(msg, "<dir>/")
 			if len(msg) > 60 {
 				msg = msg[:60]
 			}
@@ -1127,6 +1146,9 @@ func main() {
 				hr := append(append([]int{-4}, t.hdrOrder()...), a[:mid]...)
 				hr = append(append(hr, -2), a[mid:]...)
 				jobs <- job{t, hr}
+				// headers level by level, in template order and reversed
+				jobs <- job{t, append([]int{-4}, t.levelAhead(a, false)...)}
+				jobs <- job{t, append([]int{-4}, t.levelAhead(a, true)...)}
 				if r.Thorough() {
 					jobs <- job{t, append([]int{-4}, a...)}
 					// headers one step ahead of the data: before a block's data, its own header and its children's
@@ -1235,6 +1257,55 @@ func (t *tmpl) oneAhead(a []int) []int {
 }
 
 var hfHist int64
+
+// levelAhead announces headers level by level: before the data of a block at depth L all headers of
+// depth <= L that can be announced, in template order (or its reverse). Nothing deeper is known to the
+// node at that moment, so the best known header can be a block that is about to be refused.
+func (t *tmpl) levelAhead(a []int, reverse bool) []int {
+	idx := map[[32]byte]int{}
+	for i, b := range t.blocks {
+		idx[b.Hash()] = i
+	}
+	depth := make([]int, len(t.blocks))
+	var dep func(i int) int
+	dep = func(i int) int {
+		if depth[i] == 0 {
+			depth[i] = 1
+			if pi, ok := idx[t.blocks[i].Prev]; ok {
+				depth[i] = dep(pi) + 1
+			}
+		}
+		return depth[i]
+	}
+	order := make([]int, len(t.blocks))
+	for i := range order {
+		dep(i)
+		order[i] = i
+		if reverse {
+			order[i] = len(t.blocks) - 1 - i
+		}
+	}
+	ann := map[int]bool{}
+	var l []int
+	for _, x := range a {
+		for lev := 1; lev <= depth[x]; lev++ {
+			for _, i := range order {
+				if depth[i] != lev || ann[i] {
+					continue
+				}
+				if pi, ok := idx[t.blocks[i].Prev]; ok && !ann[pi] {
+					continue
+				}
+				ann[i] = true
+				l = append(l, -100-i)
+			}
+		}
+		l = append(l, x)
+	}
+	return l
+}
+
+var scratchDir = regexp.MustCompile(`/[^ :]*/verif-c06-[0-9]+/d/`)
 
 func hfOn(t *tmpl, thorough bool) bool {
 	return thorough || len(t.blocks) <= 6 || os.Getenv("C06_HF") == "all"
